@@ -193,8 +193,8 @@ Theorem C14_merge_source_pure : forall sch o T S, snd (merge sch o T S, S) = S.
 Proof. exact merge_source_pure. Qed.
 Print Assumptions C14_merge_source_pure.
 
-(* a duplicate is equal to the original (the model of lyd_dup_siblings is the identity: it can state equality, not
-   independence) and a metadata-free duplicate is the original without metadata *)
+(* a duplicate is equal to the original: trivial, the model of lyd_dup_siblings is the identity. It can state equality,
+   not independence, and says nothing about the dup options (decided by the oracles dupmatrix / dupfamilies / originuse) *)
 Theorem C14_dup_equal : forall f, dup f = f.
 Proof. reflexivity. Qed.
 Print Assumptions C14_dup_equal.
